@@ -62,9 +62,12 @@ func (d *Delegation) Plan(c *Ctx) []hist.TxSpec {
 			del(us[0], OLT(2000000), "delegate")
 			del(us[1], OLT(500000), "delegate")
 		case 4, 16, 28:
-			for _, u := range []*world.Account{us[0], us[1]} {
+			// (both withdrawals mature in the same block; the delegator whose address sorts last asks for less)
+			ws := []*world.Account{us[0], us[1]}
+			sort.Slice(ws, func(i, j int) bool { return ws[i].Addr.String() < ws[j].Addr.String() })
+			for k, u := range ws {
 				if b := DelegRewardBalance(c.S, u); b.Sign() > 0 {
-					wd(u, new(big.Int).Div(b, big.NewInt(2)).String(), "withdraw half the accrued rewards (everybody leaves the pool before it matures)")
+					wd(u, new(big.Int).Div(b, big.NewInt(int64(2+7*k))).String(), "withdraw part of the accrued rewards (everybody leaves the pool before it matures)")
 				}
 			}
 		case 5, 17, 29:
